@@ -102,6 +102,7 @@ fn main() {
         "supervision" => supervision::run(&args),
         "link_race" => supervision::link_race(&args),
         "typegate" => mailbox::typegate(&args),
+        "dequeue" => mailbox::dequeue(&args),
         "auth_fsm" => auth::fsm(&args),
         "auth_session" => auth::session(&args),
         "remote_proxy" => auth::proxy(&args),
